@@ -54,6 +54,7 @@ structure Sem (V : Type) where
 /-- `Function.Node.evaluate` -/
 def evalTree {V : Type} (S : Sem V) : Expr → Option V
   | .leaf s => S.leaf s
+  | .words _ => none
   | .app0 f => some (S.ap0 f)
   | .app1 f x => (evalTree S x).map (S.ap1 f)
   | .app2 f l r => match evalTree S l, evalTree S r with
